@@ -23,7 +23,8 @@ RULE = (
     "second load in one process / stale internal_version / model edited, reverted, edited in-process / same name other "
     "content in a shared home cache / package-directory cache / cache file cut at 0, 10 bytes, seeded middle, last byte / "
     "writer killed after k bytes (k seeded, four offset classes) / 8 racing cold starts, released together or staggered with "
-    "a pre-empted writer, then one more run); non-trivial = every case except the first cold run of a history; distinct = "
+    "a pre-empted writer, then one more run / 8 racing cold starts on two different models of one directory held at a barrier in "
+    "front of their first cache write, then one more run per model); non-trivial = every case except the first cold run of a history; distinct = "
     "distinct (model, history, step, variant, kernel)"
 )
 ASSUMPTIONS = [
@@ -84,7 +85,9 @@ def floors(tier):
         "history:truncated": (6 if t else 5) * n,
         "history:killed": (5 if t else 2) * n,
         "history:race": n,
-        "race_processes": 8 * n,
+        "history:race-cross": 2 * n,
+        "cross_race_writers_overlapped": n,
+        "race_processes": 16 * n,
         "events:hit": 200 * n,
         "events:miss": 40 * n,
         "events:dump": 40 * n,
@@ -683,6 +686,7 @@ def g_kill(cx):
         for s in ({"bytes": 0}, {"tail": 1}, {"frac": round(cx.rng.uniform(0.02, 0.98), 4)}):
             plan_.append(("isa", "data", s))
     stem = {"arch": cx.model + "_", "isa": cx.isa + "_"}
+    source = {"arch": cx.model + ".yml", "isa": cx.isa + ".yml"}
     for target, where, ks in plan_:
         variant = "%s/%s/%s=%s" % ((where, target) + sorted(ks.items())[0])
         if cx.only and cx.only != "killed:" + variant:
@@ -699,7 +703,7 @@ def g_kill(cx):
             else:
                 os.makedirs(cx.cache_dir(h), exist_ok=True)
                 shutil.copyfile(src, os.path.join(cx.cache_dir(h), name.lstrip(".")))
-        res = cx.run(h, deny=deny, kill=dict(ks, match=stem[target]))
+        res = cx.run(h, deny=deny, kill=dict(ks, source=source[target]))
         killed = [e for e in res["events"] if e["ev"] == "killed"]
         if not killed or res["rc"] != 1:
             R.count("kill_not_reached")
@@ -782,6 +786,74 @@ def g_race(cx, staggered):
             R.count("warm_hit_confirmed")
         judge(cx, res, cold, "race:" + variant, "one-more-run", crash_key="cache/race-crash", diff_key="cache/report-differs/race")
         shutil.rmtree(h, ignore_errors=True)
+    g_race_cross(cx, staggered, cold)
+
+
+def partner_of(model):
+    isa = isolate.isa_of(model)
+    if isa == "aarch64":
+        return "tx2" if model == "n1" else "n1"
+    return "zen4" if model == "zen1" else "zen1"
+
+
+def g_race_cross(cx, staggered, cold):
+    """Cold starts of two *different* models whose files (and cache files) live in one directory, writing at the same time."""
+    R = cx.R
+    cxB = Ctx(partner_of(cx.model), cx.group, cx.kernels, cx.seed, R, cx.only)
+    cxB.base, cxB.group_tier = cx.base, cx.group_tier
+    hB, resB = cold_reference(cxB)
+    coldB = resB["reports"]
+    where = "data" if (staggered or cx.rng.random() < 0.5) else "cache"
+    h = cx.new_home(files=cx.files + cxB.files[:1])
+    deny = [cx.data_dir(h)] if where == "cache" else []
+    go = os.path.join(cx.base, "go-cross")
+    bdir = os.path.join(cx.base, "barrier-cross")
+    os.makedirs(bdir)
+    procs = []
+    for i in range(NPROC):
+        _home_n[0] += 1
+        who = cx if i % 2 == 0 else cxB
+        ev = os.path.join(cx.base, "ev%d" % _home_n[0])
+        ready = os.path.join(cx.base, "ready-cross-%d" % i)
+        spec = dict(runs=who.argvs, events=ev, deny=[cx.repo_data] + deny, ready=ready, go=go,
+                    barrier={"dir": bdir, "n": NPROC, "timeout": 180})
+        if staggered:
+            spec["slow"] = {"chunks": cx.rng.randint(2, 6), "sleep": round(cx.rng.uniform(0.01, 0.15), 3),
+                            "hold": round(cx.rng.uniform(0.0, 0.8), 3)}
+        p, path = cli.start_driver(spec, home=h, workdir=cx.base)
+        procs.append((p, path, ev, ready, who))
+    t0 = time.time()
+    while not all(os.path.exists(r) or p.poll() is not None for p, _, _, r, _ in procs):
+        if time.time() - t0 > 300:
+            break
+        time.sleep(0.01)
+    open(go, "w").close()
+    results = []
+    for p, path, ev, ready, who in procs:
+        res = cli.finish_driver(p, path, timeout=1200)
+        res["events"] = cli.read_events(ev)
+        cx.count_events(res["events"])
+        results.append((res, who))
+    R.count("history:race-cross")
+    variant = "cross-%s/%s" % ("staggered" if staggered else "together", where)
+    crashed = 0
+    for i, (res, who) in enumerate(results):
+        okay = judge(who, res, cold if who is cx else coldB, "race:" + variant, "racer-%d" % i, crash_key="cache/race-crash",
+                     diff_key="cache/report-differs/race-two-models")
+        crashed += 0 if okay else 1
+    arrived = max([e.get("arrived", 0) for res, _ in results for e in res["events"] if e["ev"] == "barrier"] or [0])
+    if arrived >= NPROC:
+        R.count("cross_race_writers_overlapped")
+    sig = "%s: models %s+%s; writers at the barrier %d of %d; racers failed=%d" % (variant, cx.model, cxB.model, arrived, NPROC, crashed)
+    R.observe("race_outcomes", sig.replace(cx.model + "+" + cxB.model, "A+B"))
+    R.count("race_processes", NPROC)
+    for who, exp in ((cx, cold), (cxB, coldB)):
+        res = who.run(h, deny=deny)
+        if hits(res) >= 2:
+            R.count("warm_hit_confirmed")
+        judge(who, res, exp, "race:" + variant, "one-more-run-" + ("A" if who is cx else "B"), crash_key="cache/race-crash",
+              diff_key="cache/report-differs/race-two-models")
+    shutil.rmtree(h, ignore_errors=True)
 
 
 # ----------------------------------------------------------------------------------------------------------------
